@@ -19,6 +19,7 @@
 #include <sys/wait.h>
 #include <sys/socket.h>
 #include <sys/ioctl.h>
+#include <poll.h>
 #include <linux/sockios.h>
 #include <csignal>
 using namespace hsim;
@@ -42,7 +43,16 @@ static bool tcp_pending() {
 
 struct SockEngine : public VEngine {
     photon::MasterEventEngine* inner = nullptr;
-    int wait_for_fd(int fd, uint32_t i, photon::Timeout t) override { return inner->wait_for_fd(fd, i, t); }
+    int wait_for_fd(int fd, uint32_t i, photon::Timeout t) override {
+        int r = inner->wait_for_fd(fd, i, t);
+        if (r == 0 && (i & (photon::EVENT_READ | photon::EVENT_WRITE))) {      // told "ready": is this descriptor, in this direction, really ready?
+            int sv = errno;
+            pollfd p{fd, (short)(((i & photon::EVENT_READ) ? (POLLIN | POLLRDHUP) : 0) | ((i & photon::EVENT_WRITE) ? POLLOUT : 0)), 0};
+            if (::poll(&p, 1, 0) == 0) emit("spurious %s fd=%d interest=%u @%lu", cur().c_str(), fd, i, (unsigned long)vnow);
+            errno = sv;
+        }
+        return r;
+    }
     // epoll-ng reaps its sub-pollers in one call and fires what it reaped in the next (the idler's loop calls again): do the same
     ssize_t poll(uint64_t t) { ssize_t n = inner->wait_and_fire_events(t); if (n == 0) n = inner->wait_and_fire_events(0); return n; }
     ssize_t wait_and_fire_events(uint64_t timeout) override {
@@ -106,7 +116,9 @@ static ssize_t do_read(Script& me, End& e, const std::string& ep, const std::str
 
 static void exec_op(Script& me, const std::vector<std::string>& op) {
     auto& k = op[0];
-    if (k == "sleep") { photon::thread_usleep(strtoull(op[1].c_str(), 0, 10)); return; }
+    if (k == "sleep") {      // nobody interrupts the scripts' sleeps: a sleep that ends early was woken by somebody else's readiness event
+        if (photon::thread_usleep(strtoull(op[1].c_str(), 0, 10)) != 0) emit("spurious %s sleep errno=%d @%lu", me.name.c_str(), errno, (unsigned long)vnow);
+        return; }
     if (k == "yield") { photon::thread_yield(); return; }
     auto it = ends.find(op[1]); if (it == ends.end()) return;
     End& e = it->second; const std::string& ep = op[1];
